@@ -18,7 +18,8 @@ RULE = ('mode A: small concurrent programs (2-4 clients x 2-5 calls over 1-3 key
         'against a sequential map (Wing-Gong search), after removing only lookups that missed while overlapping a write '
         'of the same key. mode B: free-running threads and OS processes with injected gate delays, per-key check. '
         'evaluations = histories checked; distinct_nontrivial = distinct schedule traces that contained at least one '
-        'preemption inside an operation (mode A) plus free runs with overlapping operation pairs (mode B)')
+        'preemption inside an operation (mode A) plus free runs with overlapping operation pairs (mode B)'
+        ' Expired-but-present rows are explored both with cull_limit 0 and with lazy culling switched on after the rows are planted.')
 DISTINCT = ('shared_object_schedules', 'schedules_with_preemption_in_op', 'free_runs_with_overlap')
 REQUIRED = ('expired_present_keys_with_lazy_culling', 'lookups_overlapping_remove_and_store', 'schedules_through_a_sharded_cache', 'fork_runs', 'shared_object_programs', 'shared_object_schedules_judged', 'schedules_interleaved_at_statement_level', 'statement_level_gates_passed', 'calls_joining_an_enclosing_transaction', 'schedules_with_rollbacks_of_waiting_calls', 'histories_checked', 'schedules_shared_object', 'schedules_separate_objects', 'lock_waits_observed',
             'file_backed_values', 'free_runs_threads', 'free_runs_processes', 'lru_stat_schedules', 'expired_present_keys',
